@@ -57,6 +57,8 @@ Record user := {
   u_body : list pv -> dict -> store -> body_result * store }.
 
 Inductive role := RPre | RPost | RInv.
+Definition role_eqb (a b : role) : bool :=
+  match a, b with RPre, RPre | RPost, RPost | RInv, RInv => true | _, _ => false end.
 
 Inductive event :=
 | EvCond (r : role) (cid : Z) (kw : dict) (st : store)
@@ -177,26 +179,30 @@ Fixpoint eval_groups (m : mode) (U : user) (gs : list (list contract)) (resolved
   end.
 
 (** ** [_capture_old] *)
+Definition capture_one (m : mode) (U : user) (s : snapshot) (resolved : dict) : M pv :=
+  let reject_corofn := match m, skind s with Sync, CKCoroFn => true | _, _ => false end in
+  if reject_corofn then throw (XLib "ValueError" None) else
+  match select (sargs s) (sargs s) resolved with
+  | None => throw (XLib "TypeError" None)
+  | Some kw =>
+      emit (EvCapture (sid s) kw) ;;;
+      (fun st =>
+         match m, skind s with
+         | Sync, CKAwaitable => throw (XLib "ValueError" None) st
+         | _, _ =>
+             match u_capture U (sid s) kw st with
+             | CapRet v => ret v st
+             | CapRaise e => throw (XObj e) st
+             end
+         end)
+  end.
+
 Fixpoint capture_old (m : mode) (U : user) (snaps : list snapshot) (resolved : dict) (old : dict) : M dict :=
   match snaps with
   | [] => ret old
   | s :: rest =>
-      let reject_corofn := match m, skind s with Sync, CKCoroFn => true | _, _ => false end in
-      if reject_corofn then throw (XLib "ValueError" None) else
-      match select (sargs s) (sargs s) resolved with
-      | None => throw (XLib "TypeError" None)
-      | Some kw =>
-          emit (EvCapture (sid s) kw) ;;;
-          (fun st =>
-             match m, skind s with
-             | Sync, CKAwaitable => throw (XLib "ValueError" None) st
-             | _, _ =>
-                 match u_capture U (sid s) kw st with
-                 | CapRet v => capture_old m U rest resolved (dict_set old (sname s) v) st
-                 | CapRaise e => throw (XObj e) st
-                 end
-             end)
-      end
+      v <~ capture_one m U s resolved ;;
+      capture_old m U rest resolved (dict_set old (sname s) v)
   end.
 
 (** ** [_assert_postconditions] *)
@@ -252,19 +258,25 @@ Definition checker_call (m : mode) (U : user) (s : sig)
   end.
 
 (** ** Invariants: [_assert_invariant] over a list, and the two wrappers. *)
+Definition inv_kwargs (c : contract) (self : pv) : dict :=
+  if str_in "self" (cargs c) then [("self", self)] else [].
+
+Definition eval_invariant (U : user) (c : contract) (self : pv) : M bool :=
+  emit (EvCond RInv (cid c) (inv_kwargs c self)) ;;;
+  (fun st =>
+     match u_cond U (cid c) (inv_kwargs c self) st with
+     | CRaise e => throw (XObj e) st
+     | CBoolRaise e => throw (bool_raise e) st
+     | CRet b => ret b st
+     end).
+
 Fixpoint check_invariants (U : user) (invs : list contract) (self : pv) : M unit :=
   match invs with
   | [] => ret tt
   | c :: rest =>
-      let kw := if str_in "self" (cargs c) then [("self", self)] else [] in
-      emit (EvCond RInv (cid c) kw) ;;;
-      (fun st =>
-         match u_cond U (cid c) kw st with
-         | CRaise e => throw (XObj e) st
-         | CBoolRaise e => throw (bool_raise e) st
-         | CRet true => check_invariants U rest self st
-         | CRet false => (x <~ create_violation_error U RInv c [("self", self)] ;; throw x) st
-         end)
+      b <~ eval_invariant U c self ;;
+      if b then check_invariants U rest self
+      else x <~ create_violation_error U RInv c [("self", self)] ;; throw x
   end.
 
 (** public method / property accessor / dunder: invariants before and after *)
